@@ -178,6 +178,11 @@ func (c *boolExprSimplifyChecker) combineChecks(cur *astutil.Cursor) bool {
 }
 
 func (c *boolExprSimplifyChecker) removeIncDec(cur *astutil.Cursor) bool {
+	if c.hasFloats {
+		// `x+1 > y` is not `x >= y` for non-integers: 0.5+1 > 1, but not 0.5 >= 1.
+		return false
+	}
+
 	cmp := astcast.ToBinaryExpr(cur.Node())
 
 	matchOneWay := func(op token.Token, x, y *ast.BinaryExpr) bool {
